@@ -395,7 +395,7 @@ CHECKS['C05']['jobs'] += _real_runner(_mode_jobs('MODE_FAIL', [13], reach=('fail
 CHECKS['C06']['jobs'] += _real_runner(_mode_jobs('MODE_SCHED', [9], reach=('built',), bounds='one invocation from the empty tree, -j in {1,2,3}, every completion order'))
 CHECKS['C06']['jobs'] += _real_runner(_mode_jobs('MODE_SCHED', [13], extra=['WITH_JOBSERVER', 'WITH_FAILURES'], suffix='_tokens_fail', reach=('tokens-success', 'tokens-failure'), bounds='jobserver FIFO (MAKEFLAGS --jobserver-auth=fifo:) holding 0..2 tokens, any command may fail, -k in {1,2}'))
 CHECKS['C06']['jobs'] += _real_runner(_mode_jobs('MODE_SCHED', [34], extra=['WITH_JOBSERVER'], suffix='_tokens', reach=('tokens-success', 'token-arrived', 'woken-for-token', 'watching-with-console-only'), bounds='pools and console commands as a jobserver client: FIFO holding 0..2 tokens, another client may return one token while ninja waits'))
-CHECKS['C07']['jobs'] += _real_runner(_mode_jobs('MODE_CRASH', [5], extra=['INTERRUPT'], suffix='_interrupt', reach=('interrupted', 'recovered'), bounds='SIGINT / SIGTERM / SIGHUP at any wait, delivered during the poll or left pending; running commands touched their outputs or not; recovery build'))
+CHECKS['C07']['jobs'] += _real_runner(_mode_jobs('MODE_CRASH', [5], extra=['INTERRUPT'], suffix='_interrupt', reach=('interrupted', 'recovered', 'lingering-command'), bounds='SIGINT / SIGTERM / SIGHUP at any wait, delivered during the poll or left pending; running commands touched their outputs or not, die at once or only while ninja waits for them; recovery build'))
 
 # ---- level texts / notes for what was added on top of the first version of each check
 _MAIN = ' Jobs named *_main enter the same harness through ninja.cc itself: real_main(argv) with the real flag parsing (a 60-line getopt model stands in for libc getopt_long), NinjaMain (manifest load, OpenBuildLog/OpenDepsLog, the RebuildManifest loop, RunBuild) and the real StatusPrinter; only the type of NinjaMain::disk_interface_ is swapped for the harness disk and CommandRunner::factory hands out the harness runner.'
@@ -481,3 +481,6 @@ CHECKS['C08']['jobs'].append(dict(name='longnames', harness='c08_buildlog.cc', u
     bounds='three statements whose output names are L, 3 and L+1 bytes long, L from 60 lengths between 1 and 65537 clustered around 256, 512, 1024, 2048, 4096; written by the real writer (one output recorded twice), reloaded, then {reload, append, recompact, restat} and reloaded again'))
 CHECKS['C09']['jobs'].append(dict(name='older_mtime', harness='c09_depslog.cc', units=_C09_UNITS, defines=['DAMAGE_TEAR', 'CONCRETE_SEQ', 'SEQ_BASE=3', 'VERIF_SEQS=1', 'VERIF_MAXREC=4'], reach=['tear-none', 'tear-some', 'recompact-2', 'recompact-3', 'done'],
     bounds='1 sequence x 1..4 records in which an output is recorded again with the same dependencies and an older mtime (and once more unchanged); torn at every byte offset, 4 choices of appended record, recompaction never / in session 2 / in session 3'))
+CHECKS['C20']['jobs'] += _real_runner(_mode_jobs('MODE_STATUS', [5], extra=['LONG_OUTPUT'], suffix='_long', reach=('success', 'output-shown'), bounds='one invocation from the empty tree, -j in {1,2,3}, each command prints or not; what a command prints is longer (4.2 KiB) than one read from its pipe, or short; written in two parts or all at once when it exits; every completion order'))
+for _j in CHECKS['C06']['jobs']:
+    if _j['name'] == 'pools_procs': _j['reach'] = list(_j['reach']) + ['coalesced-sigchld']; _j['quick'] = dict(_j['quick'], bounds=_j['quick']['bounds'] + '; two commands may exit before the SIGCHLD handler runs once'); _j['thorough'] = dict(_j['thorough'], bounds=_j['thorough']['bounds'] + '; two commands may exit before the SIGCHLD handler runs once')
